@@ -171,7 +171,8 @@ fn normalize_command(args: Normalize) {
 #[tracing::instrument]
 fn squash_command(args: Squash) {
     let graph = &load_graph();
-    let mut patch = Graph::new();
+    // with the library's Markdown options and front matter
+    let mut patch = graph.new_patch();
     let squashed = graph.squash(&Key::from_file_name(&args.key), args.depth);
 
     patch.build_key_from_iter(&args.key.clone().into(), TreeIter::new(&squashed));
